@@ -1275,6 +1275,28 @@ def conv_accepts(ctx, bb, fn, arg):
     lit = unmut(arg)
     if lit[0] == "str":
         return literal_lookup(ctx, fn, lit[1])
+    if lit[0] == "field" and isinstance(lit[2], int):
+        # a column of a constant table that a loop walks (`for (k, v) in TABLE { .. f(v).unwrap() .. }`): every literal of
+        # that column must be accepted
+        e_ = unmut(lit[1])
+        if e_[0] == "field" and e_[2] == 0 and unmut(e_[1])[0] == "downcast" and unmut(e_[1])[2] == "Some":
+            nx_ = unmut(unmut(e_[1])[1])
+            if nx_[0] == "call" and short(nx_[1]) == "Iterator::next" and len(nx_[2]) == 1:
+                it_ = unmut(nx_[2][0])
+                while it_[0] == "call" and short(it_[1]) in ("IntoIterator::into_iter", "<impl [T]>::iter") and len(it_[2]) == 1:
+                    it_ = unmut(it_[2][0])
+                if it_[0] == "cdef":
+                    try:
+                        table_ = ctx.prog.const_lit(it_[1])
+                    except Exception:
+                        table_ = None
+                    if isinstance(table_, list) and table_ and all(isinstance(r_, tuple) and lit[2] < len(r_) and isinstance(r_[lit[2]], str) for r_ in table_):
+                        h = ""
+                        for r_ in table_:
+                            ok, h = literal_lookup(ctx, fn, r_[lit[2]])
+                            if not ok:
+                                return ok, h
+                        return True, "every one of the %d literals in column %d of %s is accepted (%s)" % (len(table_), lit[2], it_[1].split("::")[-1], h)
     if lit[0] == "var":
         # a local assigned only string literals (`let s = match x { A => "..", B => "..", _ => return .. }`): every one of
         # the finitely many values must be accepted
